@@ -1,5 +1,83 @@
+import Agd.Model.ProfileDB
+import Agd.Model.ProfileCache
 import Agd.Driver.Util
-/-! Line-protocol driver for the C14 model (stub: not built yet). -/
+/-! Line-protocol driver for the C14 model (profile database + file cache). -/
 namespace Agd.Driver.C14
-def main : IO Unit := Agd.Driver.loop (fun (s : Unit) _ => (s, "bad-op")) ()
+open Agd.ProfileDB Agd.Driver
+
+def showRes : Res → String
+  | .ok p d => s!"ok {p.id} {p.tag} {d.id} {d.tag}"
+  | .devNF => "nf"
+  | .profNF => "pnf"
+
+/-- `n` numbers from the token list. -/
+def takeNats (n : Nat) (ts : List String) : List Nat × List String :=
+  ((ts.take n).map nat!, ts.drop n)
+
+/-- Profile groups: `pid auto deleted tag n id₁ … idₙ`. -/
+def parseProfiles : Nat → List String → List Profile × List String
+  | 0, ts => ([], ts)
+  | n + 1, pid :: auto :: del :: tag :: k :: ts =>
+    let ids := takeNats (nat! k) ts
+    let r := parseProfiles n ids.2
+    ({ id := nat! pid, devIds := ids.1, auto := bool! auto, deleted := bool! del, tag := nat! tag } :: r.1, r.2)
+  | _ + 1, _ => ([], [])
+
+/-- Device groups: `id linked human tag n ip₁ … ipₙ`. -/
+def parseDevices : Nat → List String → List Device
+  | 0, _ => []
+  | n + 1, id :: linked :: human :: tag :: k :: ts =>
+    let ips := takeNats (nat! k) ts
+    { id := nat! id, linked := nat! linked, dedicated := ips.1, human := nat! human, tag := nat! tag }
+      :: parseDevices n ips.2
+  | _ + 1, _ => []
+
+def showOpt : Option Nat → String
+  | some v => toString v
+  | none => "-"
+
+def rangeFrom1 (n : Nat) : List Nat := (List.range n).map (· + 1)
+
+/-- Dump of the four index maps over the pools `1..nd`, `1..nip`, `1..nh`, `1..np`. -/
+def snap (s : St) (nd nip nh np : Nat) : String :=
+  let d := (rangeFrom1 nd).map fun i => showOpt (s.devIdx i)
+  let l := (rangeFrom1 nip).map fun i => showOpt (s.idx (.linked i))
+  let e := (rangeFrom1 nip).map fun i => showOpt (s.idx (.ded i))
+  let h := (rangeFrom1 nh).flatMap fun hh => (rangeFrom1 np).map fun p => showOpt (s.idx (.human hh p))
+  let pr := (rangeFrom1 np).map fun i => showOpt ((s.profiles i).map (·.tag))
+  let dv := (rangeFrom1 nd).map fun i => showOpt ((s.devices i).map (·.tag))
+  "d:" ++ ",".intercalate d ++ " l:" ++ ",".intercalate l ++ " e:" ++ ",".intercalate e ++
+    " h:" ++ ",".intercalate h ++ " p:" ++ ",".intercalate pr ++ " v:" ++ ",".intercalate dv
+
+def look (s : St) (r : Res × List Cleanup) : St × String :=
+  ({ s with pending := s.pending ++ r.2 }, showRes r.1 ++ s!" {r.2.length}")
+
+def step (s : St) : List String → St × String
+  | ["reset"] => (init, "ok")
+  | "sync" :: full :: np :: nd :: rest =>
+    let ps := parseProfiles (nat! np) rest
+    let ds := parseDevices (nat! nd) ps.2
+    (applySync s (bool! full) ps.1 ds, "ok")
+  | ["dev", id] => look s (findByDev s (nat! id))
+  | ["link", ip] => look s (lookupKey s (.linked (nat! ip)))
+  | ["ded", ip] => look s (lookupKey s (.ded (nat! ip)))
+  | ["hum", pid, h] => look s (lookupHuman s (nat! pid) (nat! h))
+  | ["flush"] => (flush s, s!"ok {s.pending.length}")
+  | ["run", i] => (Agd.ProfileDB.step s (.run (nat! i)), "ok")
+  | ["snap", nd, nip, nh, np] => (s, snap s (nat! nd) (nat! nip) (nat! nh) (nat! np))
+  | ["restart", v] =>
+    (loadCache (nat! v) s.cache, "ok")
+  | ["rtauth", aen, adoh, apw] =>
+    let a : Agd.ProfileCache.Auth := Agd.ProfileCache.Auth.mk (bool! aen) (bool! adoh)
+      (if apw == "0" then .allow else .bcrypt (nat! apw))
+    let b := Agd.ProfileCache.authFromPb (Agd.ProfileCache.authToPb a)
+    (s, s!"{showB b.enabled} {showB b.dohOnly} " ++
+        (match b.pw with | .allow => "0" | .bcrypt h => toString h | .nilHash => "nil"))
+  | ["load", v, np, nd] =>
+    (s, match Agd.ProfileCache.loadDecision (nat! v) (nat! np) (nat! nd) with
+      | .loaded => "loaded" | .versionIgnored => "version" | .emptyIgnored => "empty")
+  | _ => (s, "bad-op")
+
+def main : IO Unit := loop step init
+
 end Agd.Driver.C14
